@@ -176,6 +176,34 @@ def check_isname(s, acc, isname):
         acc.violation("isname", {"isname": s}, obs, exp)
 
 
+def consistent_letter(c, acc, isname, substitute):
+    """Whether a non-ASCII letter may be part of a name is left open by the statement ("letter"), but under either
+    reading a character is a letter or it is not: it must be admitted at the start of a name exactly when it is
+    admitted inside one, by isname and by the scanner of '$name' references alike."""
+    acc.ev()
+    acc.cls("letter-class-consistency")
+    try:
+        start, inside = bool(isname(c)), bool(isname("a" + c))
+    except Exception as e:
+        acc.violation("internal-error", {"isname": c}, core.exc_desc(e), "bool",
+                      tags={"kind": "internal-error", "fn": "isname"})
+        return
+    if start != inside:
+        acc.violation("letter-class-inconsistent", {"char": c, "fn": "isname"},
+                      {"isname(c)": start, "isname('a'+c)": inside}, "equal",
+                      tags={"kind": "letter-class-inconsistent", "fn": "isname"})
+    v = value_for("d", "a")
+    o1 = observe(substitute, "$" + c, {"a": v, c.lower(): "X", "a" + c.lower(): "Y"})
+    o2 = observe(substitute, "$a" + c, {"a": v, c.lower(): "X", "a" + c.lower(): "Y"})
+    # c not a name start  <=>  '$'+c is a syntax error  <=>  '$a'+c is value(a) followed by c
+    s1 = o1[0] == "syntax"
+    s2 = o2 == ("ok", v + c)
+    if s1 != s2:
+        acc.violation("letter-class-inconsistent", {"char": c, "fn": "substitute"},
+                      {"'$'+c": o1, "'$a'+c": o2}, "c is a name character in both positions or in neither",
+                      tags={"kind": "letter-class-inconsistent", "fn": "substitute"})
+
+
 def shard_strings(shard, acc):
     from ZConfig.substitution import isname
     from ZConfig.substitution import substitute
@@ -255,6 +283,10 @@ def shard_unicode(shard, acc):
                 check_string(pre + c + post, acc, env, substitute)
             check_isname("a" + c, acc, isname)
             check_isname(c, acc, isname)
+            check_isname(c + "a", acc, isname)
+            check_isname("a" + c + "a", acc, isname)
+            if cp > 127 and c.isalpha():
+                consistent_letter(c, acc, isname, substitute)
     finally:
         env.restore()
     return acc
